@@ -59,9 +59,10 @@ package format
 //@   ensures#wrappeek lasterr("Peek",1) != nil ==> err != nil && wraps(err, lasterr("Peek",1))                   [C13 C14]
 //@   ensures#wrapfooter lasterr("ReadBytes",1) != nil ==> err != nil && wraps(err, lasterr("ReadBytes",1))       [C13 C14]
 //@   ensures#wrapstanza lasterr("ReadStanza",1) != nil ==> err != nil && wraps(err, lasterr("ReadStanza",1))     [C13 C14]
-//@   ensures#ok err == nil ==> h != nil && payload != nil && len(h.MAC) == 32       [C07]
+//@   ensures#ok err == nil ==> h != nil && payload != nil && len(h.MAC) == 32       [C07 C03]
 //@   ensures#stanzas err == nil ==> (forall j in 0..len(h.Recipients) :: h.Recipients[j] != nil)
 //@   ensures#payload err == nil ==> issuffix(payload.$rem, old(input.$rem))           [C07 C12]
+//@   ensures#payloadid err == nil ==> (id(payload) == id(input) || fresh(payload))
 //@   fresh h when err == nil
 //@   fresh h.Recipients when err == nil && len(h.Recipients) > 0
 //@   modifies input.$rem, input.$bufd, input.$under.$rem
